@@ -72,6 +72,19 @@ def run_scenario(sc: dict[str, Any]) -> dict[str, Any]:
         if sc.get('change_handlers', True):
             kopf.on.create(GROUP, VERSION, PLURAL, registry=reg, id='noop')(sim.handler('noop'))
             kopf.on.update(GROUP, VERSION, PLURAL, registry=reg, id='noop')(sim.handler('noop'))
+        if sc.get('patchfail'):          # the k-th PATCH that carries a result of the timer is refused with 409 (not retried)
+            from sim.fakek8s import Fault, Plan
+            cnt = {'n': 0}
+
+            def policy(req):
+                b_ = req.body if isinstance(req.body, dict) else {}
+                if req.route.get('kind') == 'patch' and req.route.get('name') == 'o1' and 'tick' in (b_.get('status') or {}):
+                    cnt['n'] += 1
+                    if cnt['n'] == sc['patchfail']:
+                        sim.rec('t.patchfail')
+                        return Plan(fault=Fault('status', code=409))
+                return None
+            sim.srv.policy = policy
         op = sim.operator('op1', reg, sim.settings(watching__reconnect_backoff=1))      # whole seconds also when a stream is reopened
         t0 = 1
         sim.world.at(t0, lambda: sim.create('o1', {'x': 1}, labels={'tm': 'yes'} if toggles else None), 1)
@@ -123,6 +136,8 @@ def run_scenario(sc: dict[str, Any]) -> dict[str, Any]:
                 out.append(pending)
             elif ev == 't.end':
                 out.append({'ev': 'end', 't': e['t']})
+            elif ev == 't.patchfail':
+                out.append({'ev': 'patchfail', 't': e['t']})
             elif ev == 'q.proc.begin' and e.get('res') == 'things':
                 rv = int(e['rv'])
                 if rv in edit_rvs: out.append({'ev': 'change', 't': e['t']})
@@ -156,6 +171,10 @@ def gen_scenarios(seed: int, n: int) -> list[dict[str, Any]]:
                     'relist_changes': [changes.pop()] if changes and i % 4 == 3 else [],
                     'delete_at': rnd.choice([None, None, rnd.randint(5, 35)]), 'end': 60,
                     'sync': i % 5 == 2})
+        if i % 6 == 1 and conf['interval']:      # the API refuses the PATCH of a run's result for good: the timer task ends there (F17)
+            r3 = random.Random(f'timers-pf-{seed}-{i}')
+            out[-1].update(result=True, patchfail=r3.choice([1, 2, 3]), sync=False)
+            out[-1]['runs'] = [(d_, 'ok', 0) for (d_, _k, _x) in out[-1]['runs']] + [(0, 'ok', 0)] * 3
         if i % 6 == 4:      # the object leaves the timer's filters (possibly in the middle of a run) and comes back
             r2 = random.Random(f'timers-tog-{seed}-{i}')
             t1 = r2.randint(3, 20); t2 = t1 + r2.choice([1, 2, 3, 6, 10])
